@@ -115,3 +115,49 @@ Example C09_merge_example :
   /\ Forall wf_alt [MLit [97%Z] false; MCls [98%Z] [48%Z; 57%Z] [] false false; MLit [99%Z] true;
                     MCls [120%Z] [] [] false false; MCls [120%Z] [] [] false false].
 Proof. split; [vm_compute; reflexivity | repeat constructor]. Qed.
+
+(* ---- the literal-concatenating pass over the items of a sequence (Model/OptMerge.v: spass; the check compares it
+   with the real ast.Optimize, syntactically) ----
+   For every sequence of items - literals and any other expressions [others k] - whatever expressions the builder
+   emits for the literals as written (L) and as left by the pass (L'): under Ref the two sequences succeed or fail
+   alike, end at the same position and state with the same label scope, and their values are equal up to joining
+   adjacent matched texts ([text_of]: the leaves of the value with neighbouring byte strings concatenated) - the
+   "regrouping" the property allows for action-less groups. *)
+From PV Require Import Proofs.OptSeqProofs.
+
+Theorem C09_concat_pass_preserves_sequence : forall (c : rdata),
+  o_maxexpr (rO c) = 0%N ->
+  (forall id x y, ctx_eq x y -> out_eq (ce_act (rE c) id x) (ce_act (rE c) id y)) ->
+  (forall id x y, ctx_eq x y -> out_eq (ce_pred (rE c) id x) (ce_pred (rE c) id y)) ->
+  (forall id x y, ctx_eq x y -> out_eq (ce_state (rE c) id x) (ce_state (rE c) id y)) ->
+  forall (others : nat -> expr) l L L',
+    Forall2 (sdenotes c others) l L -> Forall2 (sdenotes c others) (optimize_seq l) L' ->
+    forall f H R inv n n' sc g m,
+      sres_eq (reval c (S (S f)) H R inv (ESeq n L) sc g m) (reval c (S (S f)) H R inv (ESeq n' L') sc g m).
+Proof. intros c Hb Ha Hp Hs. exact (concat_pass_preserves_sequence c Hb Ha Hp Hs). Qed.
+Print Assumptions C09_concat_pass_preserves_sequence.
+
+(* a sequence left with one item is replaced by the item: same outcome, the value loses one level of grouping *)
+Theorem C09_single_item_replaces_sequence : forall (c : rdata),
+  o_maxexpr (rO c) = 0%N ->
+  (forall id x y, ctx_eq x y -> out_eq (ce_act (rE c) id x) (ce_act (rE c) id y)) ->
+  (forall id x y, ctx_eq x y -> out_eq (ce_pred (rE c) id x) (ce_pred (rE c) id y)) ->
+  (forall id x y, ctx_eq x y -> out_eq (ce_state (rE c) id x) (ce_state (rE c) id y)) ->
+  forall e f H R inv n sc g m,
+    sres_eq (reval c (S (S f)) H R inv (ESeq n [e]) sc g m) (reval c (S f) H R inv e sc g m).
+Proof. intros c Hb Ha Hp Hs. exact (single_item c Hb Ha Hp Hs). Qed.
+Print Assumptions C09_single_item_replaces_sequence.
+
+(* cleanupCharClassMatcher: dropping repeated characters, ranges and Unicode classes changes no decision
+   (f = what the builder does to the members afterwards: lower-casing under the i flag, or nothing) *)
+Theorem C09_class_cleanup : forall u cs rs ks ic inv (f : rune -> rune) cur,
+  class_decide u (map f (dedupe_z [] cs)) (map f (dedupe_pairs [] rs)) (dedupe_b [] ks) ic inv cur =
+  class_decide u (map f cs) (map f rs) ks ic inv cur.
+Proof. exact class_decide_cleanup. Qed.
+Print Assumptions C09_class_cleanup.
+
+(* non-vacuity: "a" "b"i "c"i x "d" "e" "f"  =>  "a" "bc"i x "de" "f"  =>  "a" "bc"i x "def" *)
+Example C09_concat_example :
+  optimize_seq [ILit [97%Z] false; ILit [98%Z] true; ILit [99%Z] true; IOther 3; ILit [100%Z] false; ILit [101%Z] false; ILit [102%Z] false]
+  = [ILit [97%Z] false; ILit [98%Z; 99%Z] true; IOther 3; ILit [100%Z; 101%Z; 102%Z] false].
+Proof. vm_compute. reflexivity. Qed.
